@@ -1005,6 +1005,8 @@ class NQ:
 
     @staticmethod
     def gen(name):
+        if ZERO_ATOMS and all(("gcomp", name, p) in ZERO_ATOMS for p in range(4)):
+            return NQ(NC({}, _NQ_CTX))        # generator specialised to 0 (alternative scenario)
         _NQ_CTX.gens.setdefault(name, Gen(name, kind="quat"))
         return NQ(NC({((name, False),): Poly.const(1)}, _NQ_CTX))
 
@@ -1050,6 +1052,14 @@ class NQ:
     def _comp(self, p):
         if self.is_scalar():
             return self.scalar_value() if p == 0 else Poly()
+        if len(self.nc.terms) == 1:
+            (w, c), = self.nc.terms.items()
+            if len(w) == 1 and c.is_const():
+                # component of (a real multiple of) a single generator or its conjugate: named after the generator, so that an
+                # input specialisation "these components are 0" can be mapped back to the generator (see NQ.gen)
+                name, adj = w[0]
+                sign = -1 if (adj and p > 0) else 1
+                return Poly.atom(("gcomp", name, p)) * (c.const_value() * sign)
         return Poly.atom(("comp", self.nc.key(), p))
 
     w = property(lambda s: s._comp(0))
